@@ -172,8 +172,8 @@ class ConfigService:
         :param filename: the frame file name
         :return: True if add frame, else False
         """
-        in_app_include = self.IN_APP_INCLUDE
-        in_app_exclude = self.IN_APP_EXCLUDE
+        in_app_include = self.__as_list(self.IN_APP_INCLUDE)
+        in_app_exclude = self.__as_list(self.IN_APP_EXCLUDE)
 
         for path in in_app_exclude:
             if filename.startswith(path):
@@ -187,6 +187,15 @@ class ConfigService:
             return True, self.APP_ROOT
 
         return False, None
+
+    @staticmethod
+    def __as_list(value) -> List[str]:
+        """The include/exclude values are documented as comma separated text, accept that as well as a list."""
+        if value is None:
+            return []
+        if isinstance(value, str):
+            return [item for item in value.split(',') if item]
+        return value
 
     def _find_plugin(self, plugin_type) -> PLUGIN_TYPE:
         return next(self.__plugin_generator(plugin_type), None)
